@@ -118,14 +118,32 @@ PW_HELPER = r"""
 #[cfg(test)]
 pub(crate) mod verif_replay_pw {
     use super::*;
-    use std::io::{Cursor, Write};
+    use std::io::{Cursor, Read, Seek, SeekFrom, Write};
 %(helpers)s
-    pub(crate) fn dump(tag: &str, w: &mut PagedWriter<Cursor<Vec<u8>>>) {
-        let pos = w.writer.position();
-        println!("VR {}_offset={} {}_pos={} {}_buf={} {}_dev=x{}", tag, w.offset, tag, pos, tag, vhex(&w.page_buffer), tag, vhex(w.writer.get_ref()));
+    /// recording device: once `rec` is set, every write is logged as (position, length, first 48 device bytes afterwards)
+    pub(crate) struct RecDev { pub inner: Cursor<Vec<u8>>, pub rec: bool, pub log: Vec<(u64, usize, Vec<u8>)> }
+    impl Read for RecDev { fn read(&mut self, b: &mut [u8]) -> std::io::Result<usize> { self.inner.read(b) } }
+    impl Seek for RecDev { fn seek(&mut self, p: SeekFrom) -> std::io::Result<u64> { self.inner.seek(p) } }
+    impl Write for RecDev {
+        fn write(&mut self, b: &[u8]) -> std::io::Result<usize> {
+            let pos = self.inner.position();
+            let n = self.inner.write(b)?;
+            if self.rec { let d = self.inner.get_ref(); let h = d[..d.len().min(48)].to_vec(); self.log.push((pos, n, h)); }
+            Ok(n)
+        }
+        fn flush(&mut self) -> std::io::Result<()> { Ok(()) }
     }
-    pub(crate) fn build(stream: &[u8], pending: &[u8], p: u64, npages: u64) -> PagedWriter<Cursor<Vec<u8>>> {
-        let mut w = PagedWriter::new(Cursor::new(Vec::new())).unwrap();
+    pub(crate) fn dump(tag: &str, w: &mut PagedWriter<RecDev>) {
+        let pos = w.writer.inner.position();
+        println!("VR {}_offset={} {}_pos={} {}_buf={} {}_dev=x{}", tag, w.offset, tag, pos, tag, vhex(&w.page_buffer), tag, vhex(w.writer.inner.get_ref()));
+    }
+    pub(crate) fn start_recording(w: &mut PagedWriter<RecDev>) { w.writer.rec = true; }
+    pub(crate) fn dump_log(w: &PagedWriter<RecDev>) {
+        println!("VR nwrites={}", w.writer.log.len());
+        for (i, (pos, n, h)) in w.writer.log.iter().enumerate() { println!("VR w{}={}:{}:x{}", i, pos, n, vhex(h)); }
+    }
+    pub(crate) fn build(stream: &[u8], pending: &[u8], p: u64, npages: u64) -> PagedWriter<RecDev> {
+        let mut w = PagedWriter::new(RecDev { inner: Cursor::new(Vec::new()), rec: false, log: Vec::new() }).unwrap();
         w.write_all(stream).unwrap();
         w.flush().unwrap();
         if p < npages { w.physical_seek(p * 1024).unwrap(); }
@@ -139,7 +157,7 @@ E57_DRIVER = r"""
 #[cfg(test)]
 mod verif_replay {
     use super::*;
-    use crate::paged_writer::verif_replay_pw::{build, dump};
+    use crate::paged_writer::verif_replay_pw::{build, dump, dump_log, start_recording};
     #[test]
     fn verif_replay_case() {
         let stream: Vec<u8> = %(stream)s;
@@ -148,10 +166,12 @@ mod verif_replay {
         let w = build(&stream, &pending, %(P)d, %(npages)d);
         let mut e = E57Writer { writer: w, pointclouds: Vec::new(), extensions: Vec::new(), images: Vec::new(), root: Root { guid: "verif-guid".to_owned(), ..Default::default() } };
         dump("pre", &mut e.writer);
+        start_recording(&mut e.writer);
         let text = String::from_utf8(xml).unwrap();
         let r = e.finalize_customized_xml(move |_s| Ok(text.clone()));
         match r { Ok(()) => println!("VR res=ok"), Err(err) => { println!("VR res=err"); println!("NATIVE-ERROR {:?}", err); } }
         dump("post", &mut e.writer);
+        dump_log(&e.writer);
         std::mem::forget(e);
     }
 }
@@ -203,7 +223,9 @@ class FinalizeReplay(AbsWriterReplay):
                 vals = {}
                 f = writer_fields(I)
                 dev = sc.holder["w"].fields[f["writer"]]
-                dev.log.append(("write", U64(0), U64(1024), dev.content))
+                for wi in range(int(kv.get("nwrites", "0"))):
+                    pos, n, hx = kv["w%d" % wi].split(":")
+                    dev.log.append(("write", U64(int(pos)), U64(int(n)), CBuf(bytes.fromhex(hx[1:]))))
                 sc.j = U64(pre["sk"]["sk_j"])
             else:
                 sc = self.rebuild(I, pre, kv)
